@@ -9,7 +9,7 @@ use crate::obs;
 use crate::props::c01::gen_op;
 use crate::report::Report;
 use crate::rng::Rng;
-use crate::world::{invoke, tag, Fail, Inv, World};
+use crate::world::{Must, invoke, tag, Fail, Inv, World};
 use crate::Cfg;
 use soroban_sdk::{Address, Bytes, BytesN, Val};
 
@@ -62,7 +62,7 @@ fn pausable_example(cfg: &Cfg, rep: &mut Report, h: u64) {
                 }
             }
         }
-        let p: bool = invoke(e, &c, "paused", args!(e)).unwrap();
+        let p: bool = invoke(e, &c, "paused", args!(e)).must("paused");
         rep.check("ref", p == paused, "C16/ref/pausable/paused-flag", || format!("paused() = {p}, model {paused}"));
         // counter is observable through increment's return value only; compare when it ran
         if let (Ok(v), "increment") = (&got, f) {
@@ -81,7 +81,7 @@ fn token_history(cfg: &Cfg, rep: &mut Report, fl: Flavour, h: u64, steps: usize)
     rep.begin_history(h);
     let w = World::new(100 + rng.below(30) as u32, 16);
     let n = 5;
-    let (tok, _) = Token::deploy(&w, fl, n, 1 << 40);
+    let (tok, _) = Token::deploy_with(&w, fl, n, 1 << 40, true);
     let e = tok.env();
     let mut m = FModel::new(n);
     if Token::ctor_mints(fl) {
@@ -147,7 +147,15 @@ fn token_history(cfg: &Cfg, rep: &mut Report, fl: Flavour, h: u64, steps: usize)
             op
         };
         let want = m.predict(&op, cur, max_live, fl);
+        // the last address is a classic account; named as a multiplexed recipient two times out of
+        // three (the gates vet the underlying account)
+        let mux = matches!(op, Op::Transfer { to, .. } if to == n - 1) && rng.chance(2, 3);
+        tok.mux_to.set(if mux { Some(1 + rng.below(1 << 40)) } else { None });
         let got = tok.exec(&op, None);
+        tok.mux_to.set(None);
+        if mux {
+            rep.count(&format!("muxed_transfer:{}", tag(&got)));
+        }
         rep.evaluations += 1;
         let post = tok.observe();
         rep.evaluations += (n * n + n + 1) as u64;
@@ -288,7 +296,7 @@ fn capped(cfg: &Cfg, rep: &mut Report, h: u64) {
         let got: Result<(), Fail> = invoke(e, &c, "mint", args!(e, u[to], a));
         rep.evaluations += 1;
         let want = a >= 0 && supply.checked_add(a).map_or(false, |s| s <= cap);
-        let ts: i128 = invoke(e, &c, "total_supply", args!(e)).unwrap();
+        let ts: i128 = invoke(e, &c, "total_supply", args!(e)).must("total_supply");
         let cls = if a < 0 { "neg" } else if supply.checked_add(a).is_none() { "overflow" } else if supply + a > cap { "above-cap" } else if supply + a == cap { "at-cap" } else { "below-cap" };
         rep.op(format!("#{step} mint {a} (supply {supply}, cap {cap}) -> {}", tag(&got)));
         rep.case(format!("cap/{cls}/cap-class={}/{}", if cap == 0 { "zero" } else if cap >= i128::MAX - 1 { "max" } else { "mid" }, tag(&got)));
